@@ -185,9 +185,11 @@ def cases(tier, seed=0):
         p.update(J(idx), d)
         n = norm(idx, 3)
         lhs, rhs = [], []
+        upd_int = {"1": p.integrate(), "x": p.integrate("x"), "xx": p.integrate("xx'"), "logint": p.log_integral(), "H": p.entropy()}
         for k in range(3):
-            lhs.append(_obj(p.slice(J([k]))))
-            rhs.append(_obj(d.slice(J([n.index(k)]))) if k in n else _obj(old.slice(J([k]))))
+            lhs.append({"obj": _obj(p.slice(J([k]))), "ints": {kk: v[k:k + 1] for kk, v in upd_int.items()}})
+            src = d.slice(J([n.index(k)])) if k in n else old.slice(J([k]))
+            rhs.append({"obj": _obj(src), "ints": {"1": src.integrate(), "x": src.integrate("x"), "xx": src.integrate("xx'"), "logint": src.log_integral(), "H": src.entropy()}})
         return lhs, rhs
     out.append(scenario_case("update/pdf", declare, run, upd, dict(op="update(idx, d) replaces exactly the addressed components", R=3, D=D)))
 
